@@ -1,0 +1,117 @@
+//! Read-only canonical dump of the index for the external monitoring
+//! harness (cargo feature `verif`).
+
+use super::*;
+
+/// A UTXO entry decoded with the index's own parser.
+#[derive(Debug, Clone, PartialEq, Eq)]
+pub struct VerifUtxo {
+  pub outpoint: OutPoint,
+  pub value: u64,
+  pub sat_ranges: Option<Vec<(u64, u64)>>,
+  pub script_pubkey: Option<Vec<u8>>,
+  pub inscriptions: Option<Vec<(u32, u64)>>,
+}
+
+macro_rules! dump_table {
+  ($rtx:expr, $out:expr, $table:ident) => {
+    for result in $rtx.open_table($table)?.iter()? {
+      let (key, value) = result?;
+      $out.push((
+        stringify!($table),
+        format!("{:?}", key.value()),
+        format!("{:?}", value.value()),
+      ));
+    }
+  };
+}
+
+macro_rules! dump_multimap_table {
+  ($rtx:expr, $out:expr, $table:ident) => {
+    for result in $rtx.open_multimap_table($table)?.iter()? {
+      let (key, values) = result?;
+      let key = format!("{:?}", key.value());
+      for value in values {
+        $out.push((
+          stringify!($table),
+          key.clone(),
+          format!("{:?}", value?.value()),
+        ));
+      }
+    }
+  };
+}
+
+impl Index {
+  /// Every row of every table as `(table, key, value)` debug strings, in
+  /// table order. One read transaction, so the dump is a consistent snapshot.
+  pub fn verif_dump(&self) -> Result<Vec<(&'static str, String, String)>> {
+    let rtx = self.database.begin_read()?;
+    let mut out = Vec::new();
+
+    dump_multimap_table!(rtx, out, LATEST_CHILD_SEQUENCE_NUMBER_TO_COLLECTION_SEQUENCE_NUMBER);
+    dump_multimap_table!(rtx, out, SAT_TO_SEQUENCE_NUMBER);
+    dump_multimap_table!(rtx, out, SCRIPT_PUBKEY_TO_OUTPOINT);
+    dump_multimap_table!(rtx, out, SEQUENCE_NUMBER_TO_CHILDREN);
+    dump_table!(rtx, out, COLLECTION_SEQUENCE_NUMBER_TO_LATEST_CHILD_SEQUENCE_NUMBER);
+    dump_table!(rtx, out, GALLERY_SEQUENCE_NUMBERS);
+    dump_table!(rtx, out, HEIGHT_TO_BLOCK_HEADER);
+    dump_table!(rtx, out, HEIGHT_TO_LAST_SEQUENCE_NUMBER);
+    dump_table!(rtx, out, HOME_INSCRIPTIONS);
+    dump_table!(rtx, out, INSCRIPTION_ID_TO_SEQUENCE_NUMBER);
+    dump_table!(rtx, out, INSCRIPTION_NUMBER_TO_SEQUENCE_NUMBER);
+    dump_table!(rtx, out, NUMBER_TO_OFFER);
+    dump_table!(rtx, out, OUTPOINT_TO_RUNE_BALANCES);
+    dump_table!(rtx, out, OUTPOINT_TO_UTXO_ENTRY);
+    dump_table!(rtx, out, RUNE_ID_TO_RUNE_ENTRY);
+    dump_table!(rtx, out, RUNE_TO_RUNE_ID);
+    dump_table!(rtx, out, SAT_TO_SATPOINT);
+    dump_table!(rtx, out, SEQUENCE_NUMBER_TO_INSCRIPTION_ENTRY);
+    dump_table!(rtx, out, SEQUENCE_NUMBER_TO_RUNE_ID);
+    dump_table!(rtx, out, SEQUENCE_NUMBER_TO_SATPOINT);
+    dump_table!(rtx, out, STATISTIC_TO_COUNT);
+    dump_table!(rtx, out, TRANSACTION_ID_TO_RUNE);
+    dump_table!(rtx, out, TRANSACTION_ID_TO_TRANSACTION);
+    dump_table!(rtx, out, WRITE_TRANSACTION_STARTING_BLOCK_COUNT_TO_TIMESTAMP);
+
+    Ok(out)
+  }
+
+  /// Every UTXO entry, decoded.
+  pub fn verif_utxos(&self) -> Result<Vec<VerifUtxo>> {
+    let rtx = self.database.begin_read()?;
+    let mut out = Vec::new();
+
+    for result in rtx.open_table(OUTPOINT_TO_UTXO_ENTRY)?.iter()? {
+      let (key, value) = result?;
+      let entry = value.value().parse(self);
+      out.push(VerifUtxo {
+        outpoint: OutPoint::load(*key.value()),
+        value: entry.total_value(),
+        sat_ranges: self.index_sats.then(|| {
+          entry
+            .sat_ranges()
+            .chunks_exact(11)
+            .map(|chunk| SatRange::load(chunk.try_into().unwrap()))
+            .collect()
+        }),
+        script_pubkey: self
+          .index_addresses
+          .then(|| entry.script_pubkey().to_vec()),
+        inscriptions: self
+          .index_inscriptions
+          .then(|| entry.parse_inscriptions()),
+      });
+    }
+
+    Ok(out)
+  }
+
+  /// Ids of the persistent savepoints currently held by the database.
+  pub fn verif_savepoints(&self) -> Result<Vec<u64>> {
+    let wtx = self.database.begin_write()?;
+    let savepoints = wtx.list_persistent_savepoints()?.collect::<Vec<u64>>();
+    wtx.abort()?;
+    Ok(savepoints)
+  }
+}
